@@ -18,7 +18,7 @@ from ..interp import Frame, Interp, ReturnEx
 from ..native import build_native, run_native
 from ..prog import Program, Unsupported
 from ..values import NONE, UNIT, Opaque, REnum, RMap, RStruct, RTuple, RVec, key_of, some
-from ..vfsworld import ABSENT, DIR, FILE, VfsWorld
+from ..vfsworld import ABSENT, DIR, FILE, VfsWorld, LINK
 
 ASSUMPTIONS = [
     'file system model as in C02 (finite path universe, symbolic kinds); remove_dir_all removes the subtree, remove_file one file',
@@ -29,7 +29,8 @@ ASSUMPTIONS = [
 PATHS = ['/p/.zinoma', '/p/.zinoma/a.checksums', '/p/.zinoma/b.checksums', '/p/.zinoma/d.checksums',
          '/p/outa', '/p/outa/f', '/p/gen', '/p/gen/x.o', '/p/gen/y.txt', '/p/outb', '/p/in.txt',
          '/p/gen/lnk.o', '/ext', '/ext/v.o']
-LINKS = {'/p/gen/lnk.o': '/ext'}     # a symlink below an extension-filtered output (its own name matches the filter), pointing outside every declared path;
+LINKS = {'/p/gen/lnk.o': '/ext', '/p/outb': '/ext'}     # (second entry: a plain declared output that is itself a symlink -- to a directory, a file or nothing)
+# first entry: a symlink below an extension-filtered output (its own name matches the filter), pointing outside every declared path;
                                      # /ext may be a directory (with a matching file in it), a regular file or missing
 
 TARGETS = {
@@ -121,6 +122,7 @@ def explore(arg):
         s.set('timeout', 60000)
         for c in w.constraints([1]):
             s.add(c)
+        exp_link = {}   # path -> z3 Bool: the path is a link that has to go (remove_file or remove_dir_all of the link itself)
         exp_file = {}   # path -> z3 Bool: remove_file(path) expected
         exp_dir = {}    # path -> z3 Bool: remove_dir_all(path) expected
         for n in scope:
@@ -129,6 +131,10 @@ def explore(arg):
                     for p in ps:
                         exp_file[p] = z3.Or(exp_file.get(p, z3.BoolVal(False)), w.sym_kind(e, p) == FILE)
                         exp_dir[p] = z3.Or(exp_dir.get(p, z3.BoolVal(False)), w.sym_kind(e, p) == DIR)
+                        if p in LINKS:
+                            # a declared output path that is a symbolic link (even a dangling one) is removed itself, by either
+                            # primitive (neither follows the link); what it points to must survive
+                            exp_link[p] = w.sym_kind(e, p) == LINK
                 else:
                     for p, g in listed_spec(w, e, [(ps, exts)]).items():
                         exp_file[p] = z3.Or(exp_file.get(p, z3.BoolVal(False)), g)
@@ -161,7 +167,7 @@ def explore(arg):
             others = [(d['op'], d['path']) for k, d in p.effects if k == 'fs' and d['op'] not in ('remove_file', 'remove_dir_all')]
             # 1. nothing is deleted that the reference does not allow
             for op, path in dels:
-                allowed = (exp_file if op == 'remove_file' else exp_dir).get(path, z3.BoolVal(False))
+                allowed = z3.Or((exp_file if op == 'remove_file' else exp_dir).get(path, z3.BoolVal(False)), exp_link.get(path, z3.BoolVal(False)))
                 s.push(); s.add(cz, z3.Not(allowed))
                 r = s.check()
                 record('nothing_else_is_deleted', 'sat' if r == z3.sat else ('unsat' if r == z3.unsat else 'unknown'), '%s(%s) not expected' % (op, path), s.model() if r == z3.sat else None)
@@ -182,6 +188,12 @@ def explore(arg):
                         s.push(); s.add(cz, g, z3.Not(anc))
                         r = s.check()
                         record('everything_declared_is_deleted', 'sat' if r == z3.sat else ('unsat' if r == z3.unsat else 'unknown'), 'remove_file(%s) missing' % path, s.model() if r == z3.sat else None)
+                        s.pop()
+                for path, g in exp_link.items():
+                    if path not in done_f and path not in done_d:
+                        s.push(); s.add(cz, g)
+                        r = s.check()
+                        record('everything_declared_is_deleted', 'sat' if r == z3.sat else ('unsat' if r == z3.unsat else 'unknown'), 'the declared output %s is a symbolic link and is left in place' % path, s.model() if r == z3.sat else None)
                         s.pop()
                 for path, g in exp_dir.items():
                     if path not in done_d:
